@@ -1236,6 +1236,38 @@ func c10Exec(cs *c10Case, e *c10Env) (v c10Verdict) {
 		default:
 			v.gotValue = true
 		}
+	case "source":
+		o := zn.RunReal(cs.Text, nil)
+		call := "⟨program: " + strings.ReplaceAll(cs.Text, "\n", "⏎") + "⟩"
+		switch {
+		case o.Panic != "":
+			finish(mk("panic", o.Panic, o.Stack), call)
+		case o.NilResult:
+			finish(mk("mismatch", "program succeeded with a nil result", ""), call)
+		case o.Err != nil:
+			if o.Err.Kind == "runtime" && o.Err.Code == 42 && strings.Contains(o.Err.Msg, "「丁」") {
+				finish(mk("mismatch", "call succeeded with a nil result: the name it was bound to is undefined ("+o.Err.Msg+")", ""), call)
+				return
+			}
+			if o.Err.Kind == "syntax" {
+				finish(&mc.Failure{Kind: "crash", Observed: "harness program does not parse: " + o.Err.Msg}, call)
+				return
+			}
+			v.trivial = false
+			if p := c10ErrDisplay(o.RawErr); p != "" {
+				finish(mk("panic", "rendering the error panicked: "+p, ""), call)
+			}
+		case c10HasNil(o.Elem, 0):
+			finish(mk("mismatch", "program result contains a nil element", ""), call)
+		default:
+			// rendering the result is what 显示 / the command line do with it
+			res := c10Guarded(func() (r.Element, error) { _ = o.Elem.String(); return nil, nil })
+			if res.pan != "" {
+				finish(mk("panic", "rendering the result panicked: "+res.pan, res.stack), call)
+				return
+			}
+			v.gotValue = true
+		}
 	case "varinput":
 		var m r.ElementMap
 		res := c10Guarded(func() (r.Element, error) {
@@ -1371,6 +1403,99 @@ func c10LeastMissing(member string, nargs int) bool {
 func c10TextNeedsFrame(text string) bool {
 	rest := strings.TrimPrefix(strings.TrimPrefix(text, "甲 = "), "甲 设为 ")
 	return strings.Contains(rest, "乙") || strings.Contains(rest, "其") || strings.Contains(rest, "甲")
+}
+
+// ------------------------------------------------------------------ source seam
+
+// callable bodies that yield no value, consumed in every way a result can be
+var c10BodyStmts = []string{
+	"如何G？\n    输出1",
+	"定义U：\n    其Q = 1",
+	"令Y = 1",
+	"每当假：\n    令Z = 1",
+	"如果假：\n    输出5",
+	"遍历【】：\n    令Z = 1",
+	"输出7",
+	"（显示：1）",
+}
+
+var c10BodyUses = []string{
+	"输出%s", "输出【%s】", "令丁 = %s\n输出丁", "输出%s + 1", "如果%s：\n    输出1\n输出2", "输出%s之文本",
+	"输出【K = %s】", "输出%s 为 空", "（显示：%s）\n输出3", "输出“{}” %% 【%s】", "令丁 = 【%s】\n输出丁", "输出（F2：%s）",
+}
+
+func c10Indent(s string, n int) string {
+	pad := strings.Repeat("    ", n)
+	return pad + strings.ReplaceAll(s, "\n", "\n"+pad)
+}
+
+// c10Sources enumerates the programs of the source seam in a fixed order.
+func c10Sources(tier string, fn func(kind, src string)) {
+	// (a) bodies of 1..2 statements x 4 kinds of callable x every use of the result
+	var bodies []string
+	for _, a := range c10BodyStmts {
+		bodies = append(bodies, a)
+	}
+	for _, a := range c10BodyStmts {
+		for _, b := range c10BodyStmts {
+			if a != b {
+				bodies = append(bodies, a+"\n"+b)
+			}
+		}
+	}
+	f2 := "如何F2？\n    输入V\n    输出V\n"
+	for _, body := range bodies {
+		kinds := []struct{ pre, call string }{
+			{"如何F？\n" + c10Indent(body, 1) + "\n", "（F）"},
+			{"定义T：\n    其P = 1\n    如何M？\n" + c10Indent(body, 2) + "\n令O = （新建T）\n", "以O（M）"},
+			{"定义T：\n    其P = 1\n    何为H？\n" + c10Indent(body, 2) + "\n令O = （新建T）\n", "O之H"},
+			{"定义T：\n    其P = 1\n如何新建T？\n" + c10Indent(body, 1) + "\n", "（新建T）"},
+		}
+		for _, k := range kinds {
+			for _, use := range c10BodyUses {
+				fn("body", f2+k.pre+fmt.Sprintf(use, k.call))
+			}
+		}
+	}
+	// (b) histories: copies of ONE dictionary / list, then mutations through each name, then rendering
+	L := 3
+	if tier == "thorough" {
+		L = 4
+	}
+	type family struct {
+		pre string
+		ops []string
+	}
+	vars := []string{"甲", "乙", "丙"}
+	var dops, lops []string
+	for _, v := range vars {
+		dops = append(dops, "以"+v+"（写入：“D”、4）", "以"+v+"（移除：“A”）", v+"#“E” = 5")
+		lops = append(lops, "以"+v+"（后增：4）", "以"+v+"（左移）", "以"+v+"（新增：1、9）")
+	}
+	copies := []string{"乙 = 甲", "丙 = 甲", "丙 = 乙", "甲 = 丙"}
+	fams := []family{
+		{"令甲 = 【“A” = 1，“B” = 2，“C” = 3】\n令乙 = 甲\n令丙 = 甲\n", append(append([]string{}, copies...), dops...)},
+		{"令甲 = 【1，2，3】\n令乙 = 甲\n令丙 = 甲\n", append(append([]string{}, copies...), lops...)},
+	}
+	for _, fam := range fams {
+		n := len(fam.ops)
+		for l := 1; l <= L; l++ {
+			total := 1
+			for i := 0; i < l; i++ {
+				total *= n
+			}
+			for k := 0; k < total; k++ {
+				var b strings.Builder
+				b.WriteString(fam.pre)
+				for i, kk := 0, k; i < l; i++ {
+					b.WriteString(fam.ops[kk%n] + "\n")
+					kk /= n
+				}
+				b.WriteString("（显示：甲、乙、丙）\n输出【甲，乙，丙，“{}” % 【甲】】")
+				fn("history", b.String())
+			}
+		}
+	}
 }
 
 // ------------------------------------------------------------------ varinput grammar
@@ -1515,6 +1640,7 @@ func init() {
 			"guards seam: Validate{Exact,Least,All}Params / AssertElement / AssertPropertyElement over type-string patterns x value tuples. " +
 			"program seam: one-call programs (method, property read / write, function call, 新建, 抛出, index read / write, every binary operator spelling, 如果 / 每当 / 遍历) with every argument slot over the full pool, arity <= 2 (method calls in quick: two arguments only on receivers whose type owns the method, one argument on every receiver; thorough: every receiver, and arity 3 over the sub-pool), values through 输入, result bound to a name and returned (and returned directly for arity <= 1). " +
 			"varinput seam: every text 甲 = <rhs> with <= 3 units over 14 units joined by 5 separators, two assignments joined by ； / newline, 8 target forms. " +
+			"source seam: every callable (function, method, 何为 getter, constructor) whose body is 1..2 statements over 8 forms that may yield no value (nested definitions, declarations, loops and branches that never run, 输出, 显示) x 12 ways of consuming the call's result; every history of <= 3 (4 thorough) operations (re-copy, 写入 / 移除 / index write, 后增 / 左移 / 新增) through three names holding copies of one 3-key dictionary or one 3-item list, then 显示, format and rendering of all three. " +
 			"Enumeration is an odometer over table indexes, so cases are distinct; a case is non-trivial when the member's own code was reached (outcome is a value, or an error other than member-not-found / name-not-defined).",
 		Assumptions: []string{
 			"a Zn error of any kind is an acceptable outcome; only a Go panic, a nil Element on success (also inside a returned collection, or bound to a name that then reads as undefined), a hang or a dead worker are violations",
@@ -1903,6 +2029,12 @@ func c10Run(c *mc.Ctx) {
 		one("varinput_cases")
 	})
 	c.Bound("varinput_seam", fmt.Sprintf("complete: %d units, %d separators, rhs <= 3 units", len(c10VarUnits), len(c10VarSeps)))
+	// ================= seam 5: whole programs (callable bodies without a value; histories on copies)
+	c10Sources(c.Tier, func(kind, src string) {
+		cur = c10Case{Seam: "source", Kind: kind, Recv: -1, Text: src}
+		one("source_" + kind + "_cases")
+	})
+	c.Bound("source_seam", fmt.Sprintf("complete: bodies of 1..2 statements over %d statement forms x 4 callables x %d uses of the result; every history of <= %d operations over copies of one 3-key dictionary / 3-item list held by three names", len(c10BodyStmts), len(c10BodyUses), map[bool]int{true: 4, false: 3}[c.Tier == "thorough"]))
 	if stopped {
 		c.Inexhaustive("deadline")
 	}
